@@ -124,3 +124,34 @@ def corrupt(rng, word, positions, avoid=None):
                 break
         w[p] = nv
     return w
+
+
+def replay_f19(f=None):
+    """witnesses of known finding F19 (unireedsolomon raising within capacity); returns a text when at least one still fails"""
+    res = []
+    # (a) errors and erasures, ECCMan(10,7,algo=2)
+    man = manager(2, 10, 7)
+    msg = bytes.fromhex("96c0cb72e5d90a")
+    with common.quiet():
+        par = bytes(man.encode(msg))
+    rx = bytearray(msg + par)
+    rx[2], rx[3] = 52, 0
+    try:
+        with common.quiet():
+            r = man.decode(bytes(rx[:7]), bytes(rx[7:]), enable_erasures=True, erasures_char=0)
+        if (bytes(r[0]), bytes(r[1])) != (msg, par):
+            res.append("erasure witness: wrong result")
+    except Exception as e:
+        res.append("erasure witness raises %s" % type(e).__name__)
+    # (b) errors only, decode_fast, code (27,9)
+    man = manager(2, 27, 9)
+    rx = bytes.fromhex("32003b210000009cf2874b8a66d5fc83b298bed308edda7eab784b")
+    msg = bytes.fromhex("320000000000000df2")
+    try:
+        with common.quiet():
+            r = man.decode(rx[:9], rx[9:])
+        if bytes(r[0]) != msg:
+            res.append("errors-only witness: wrong result")
+    except Exception as e:
+        res.append("errors-only witness raises %s" % type(e).__name__)
+    return "; ".join(res) if res else None
